@@ -251,6 +251,9 @@ func gen(r *lib.Rand, tier, stream string, i int) History {
 		return actor()
 	}
 	spendAmount := func(held uint64) uint64 {
+		if r.Chance(1, 30) {
+			return 0 // ValidateBasic rejects a zero amount
+		}
 		switch r.Weighted(5, 6, 2, 3, 1, 1) {
 		case 0:
 			return held // exactly everything (0 if nothing held: invalid amount)
@@ -274,6 +277,9 @@ func gen(r *lib.Rand, tier, stream string, i int) History {
 		return 0
 	}
 	mintAmount := func(supply uint64) uint64 {
+		if r.Chance(1, 30) {
+			return 0 // ValidateBasic rejects a zero amount
+		}
 		room := math.MaxUint64 - supply
 		switch r.Weighted(8, 6, 1, 3, 2, 2, 2) {
 		case 0:
@@ -369,7 +375,21 @@ func gen(r *lib.Rand, tier, stream string, i int) History {
 			if r.Chance(1, 30) {
 				rc = -2
 			}
+			before, had := sh.owner[d]
 			push(Step{K: "handover", S: ownerish(d), D: d, R: rc})
+			if after := sh.owner[d]; had && after != before {
+				// the class changed hands: the former owner must be refused, the new one accepted,
+				// for a new MT (empty id) and for more of an existing one
+				for _, who := range []int{before, after} {
+					if r.Chance(2, 3) {
+						m := 0
+						if ms := sh.mts[d]; len(ms) > 0 && r.Chance(1, 2) {
+							m = ms[r.Intn(len(ms))]
+						}
+						push(Step{K: "mint", S: who, D: d, M: m, A: u(mintAmount(sh.sup[[2]int{d, m}])), R: -1})
+					}
+				}
+			}
 		case 7:
 			push(Step{K: "block"})
 		}
@@ -544,6 +564,7 @@ func exec(h History) lib.Case {
 	var terms []string
 	strangerTried := map[int]bool{} // class -> a non-owner attempted mint/edit/handover
 	ownerDid := map[int]bool{}      // class -> its owner succeeded with mint/edit/handover
+	formerOwner := map[[2]int]bool{} // (class, actor) -> the actor owned the class before a hand-over
 	for _, st := range h.Steps {
 		amt, _ := strconv.ParseUint(st.A, 10, 64)
 		var msg sdk.Msg
@@ -606,6 +627,34 @@ func exec(h History) lib.Case {
 		}
 		out := e.Deliver(msg)
 		lib.Stat(c.Stats, "res:"+out.Kind)
+		if amt == 0 && (st.K == "mint" || st.K == "transfer" || st.K == "burn") {
+			lib.Stat(c.Stats, "amount:0:"+out.Kind)
+		}
+		if st.K == "mint" {
+			kind := "new-mt(empty id)"
+			switch {
+			case st.M > 0 && knownM[mtStr(st.M)]:
+				kind = "more-of-existing"
+			case st.M > 0:
+				kind = "unknown-or-foreign-id"
+			case st.M < 0:
+				kind = "bogus-id"
+			}
+			lib.Stat(c.Stats, "mint:"+kind+":"+out.Kind)
+			if ownerBefore >= 0 && st.S >= 0 {
+				who := "stranger"
+				if st.S == ownerBefore {
+					who = "owner"
+				} else if formerOwner[[2]int{st.D, st.S}] {
+					who = "former-owner"
+				}
+				lib.Stat(c.Stats, "mint:by-"+who+":"+out.Kind)
+			}
+		}
+		if st.K == "handover" && out.OK() && ownerBefore >= 0 && st.R != ownerBefore {
+			formerOwner[[2]int{st.D, ownerBefore}] = true
+			delete(formerOwner, [2]int{st.D, st.R})
+		}
 		newID := 0
 		if out.OK() {
 			switch st.K {
